@@ -178,7 +178,7 @@ def judge(ck, outp, events, execs, lines, what, depth=0):
         with cf.ThreadPoolExecutor(max_workers=3) as ex:
             needed = list(ex.map(lambda a: not vf.validate_trace(TRACE, trace_cfg(ck, tuple(b for b in ALLOW if b != a)), outp, tag="X18_val_" + a).accepted, ALLOW))
         for a, need in zip(ALLOW, needed):
-            if need:
+            if need and what != "asan":            # the ASan pass repeats a subset of the scripts: same observations
                 ck.note("%s  [accepted only with the named deviation %s; %d scripts match /%s/]" % (
                     OBS[a], a, sum(1 for ln in lines if re.search(ALLOW_TOKEN[a], ln)), ALLOW_TOKEN[a]))
         ck.note("first event the strict oracle refuses: %s" % first)
@@ -287,10 +287,13 @@ def run(ck):
     if not (pr and pr[0]["reached"]):
         ck.note("cleanup probe: the window was not reached in this run (timing): %s" % pr)
     # model drift + measured facts
-    drift, fence_bad, once, retr_cases = 0, 0, 0, 0
+    drift, fence_bad, once, retr_cases, first_drift = 0, 0, 0, 0, ""
     for (start, evs), pred, ln in zip(execs, preds, lines):
         got = {str(e["q"]): e["kind"] for e in evs if e["e"] == "Done"}
-        drift += sum(1 for q in pred if got.get(q) != pred[q])
+        dq = [q for q in pred if got.get(q) != pred[q]]
+        drift += len(dq)
+        if dq and not first_drift:
+            first_drift = "q%s predicted %s, observed %s in: %s" % (dq[0], pred[dq[0]], got.get(dq[0]), ln)
         fence_bad += sum(1 for e in evs if e["e"] == "Fence" and not e["ok"])
         if "retries=2" in ln and "tmo=S" in ln:
             for q, kd in got.items():
@@ -298,7 +301,8 @@ def run(ck):
                     retr_cases += 1
                     n = sum(1 for e in evs if e["e"] in ("SrvRecv", "Extra") and str(e["q"]) == q and e["proto"] == ("tcp" if "mode=T" in ln else "udp"))
                     once += 1 if n == 1 else 0
-    ck.note("model drift: %d of %d predicted completions differ (accepted by Abs); fences that did not complete: %d" % (drift, sum(len(p) for p in preds), fence_bad))
+    ck.note("model drift: %d of %d predicted completions differ (accepted by Abs)%s; fences that did not complete: %d" % (
+        drift, sum(len(p) for p in preds), (" - first: " + first_drift) if first_drift else "", fence_bad))
     if retr_cases and once == retr_cases:
         ck.note("OBSERVATION X18-O3: retryCount is ineffective - %d queries with retryCount=2 that timed out were transmitted exactly once "
                 "(the per-send timeout timer completes the query at `timeout`; retryQuery is reachable only from the 10 s cleanup thread "
